@@ -198,6 +198,10 @@ func C17View(s hist.State, evm map[string][2]string, h int64) []Finding {
 // simpleBlock: when every executed transaction of the block is a native OLT transfer or a plain EVM transfer
 // between externally owned accounts, each account's OLT delta is predicted exactly from the transactions
 // (amounts, values and gasUsed x price), whatever their order: the EVM and the native ledger are one ledger.
+// SimpleBlock is the exact per-account accounting of blocks that carry only native OLT transfers and plain EVM
+// transfers (see simpleBlock); exported for the ledger checks.
+func SimpleBlock(blk *hist.Block) []Finding { return simpleBlock(blk) }
+
 func simpleBlock(blk *hist.Block) []Finding {
 	want := map[string]*big.Int{}
 	n := 0
